@@ -138,7 +138,7 @@ def wide_ops(ctx: Ctx) -> list[dict]:
         c[p] = rng.choice(alpha)
         add(c, (rng.choice(ENTRY),))
     # random texts around valid shapes
-    for _ in range(3000 if ctx.quick else 80000):
+    for _ in range(3000 if ctx.quick else 300000):
         n = rng.choice((8, 11, 8, 11, 7, 9, 10, 12))
         t = [ord(rng.choice(string.ascii_uppercase + string.digits)) for _ in range(n)]
         if n >= 6 and rng.random() < 0.8:
